@@ -561,6 +561,18 @@ impl Prop for C20Prop {
             out.push(case(cli_req(&["--lint", FILE_ARG], Some(text)), vec!["form:--lint", tag, "fixed"], true));
             out.push(case(format!("lint {}", enc_str(text)), vec!["op:lint", tag, "fixed"], true));
         }
+        // the executable offers the library's commands: every name and alias of the library's
+        // registry is asked for through the executable (a binary built with other crate features
+        // than the library the property compares it with would answer differently)
+        {
+            let mut text = String::new();
+            for n in crate::props::c04::registry_names() {
+                if n.chars().all(|c| c.is_ascii_alphanumeric() || c == '_' || c == ':') {
+                    text.push_str(&format!("d = is_command_defined {}\necho {} ${{d}}\n", n, n));
+                }
+            }
+            out.push(case(cli_req(&[FILE_ARG], Some(&text)), vec!["form:file", "registry-of-the-executable", "fixed"], true));
+        }
         // lint across an include: offending line in the included file / in the including file
         // after the directive / nowhere
         for (m, i) in [
